@@ -208,6 +208,7 @@ func Boot(sc *Scenario) (*World, error) {
 	resetContext(self)
 	chf_context.Init()
 	self.NfId = "00000000-0000-4000-8000-00000000c4f0"
+	self.LocalRecordSequenceNumber = rc.CounterStart
 
 	w.Net = simnet.New(simnet.Config{Seed: sc.Seed, MinLatNs: rc.MinLatNs, MaxLatNs: rc.MaxLatNs})
 	simnet.Install(w.Net)
